@@ -150,12 +150,15 @@ void constructCommon(ModelSignature model,
     std::string filename = checkpoint_filename;
     std::string filename_old = checkpoint_filename + "_old";
 
+    bool recovered_main = false; // indicates that the main checkpoint file already holds the current state
     if (!filename.empty()){ // recover from an existing checkpoint
+        TasmanianSparseGrid initial_grid(grid); // a failed read() leaves the grid empty, keep the state to start over
         std::ifstream infile(filename, std::ios::binary);
         try{ // attempt to recover from filename
             if (!infile.good()) throw std::runtime_error("missing main checkpoint");
             grid.read(infile, mode_binary);
             complete.read(infile);
+            recovered_main = true;
         }catch(std::runtime_error &){
             // main file is missing or is corrupt, try the older version
             std::ifstream oldfile(filename_old, std::ios::binary);
@@ -164,12 +167,13 @@ void constructCommon(ModelSignature model,
                 grid.read(oldfile, mode_binary);
                 complete.read(oldfile);
             }catch(std::runtime_error &){
-                // nothing could be recovered, start over from the current grid
+                // nothing could be recovered, start over from the initial grid
+                grid.copyGrid(&initial_grid);
             }
         }
     }
 
-    if (!filename.empty()){ // initial checkpoint
+    if (!filename.empty() && !recovered_main){ // initial checkpoint, never rewrite the file that was just recovered (there is no backup of it yet)
         std::ofstream ofs(filename, std::ios::binary);
         grid.write(ofs, mode_binary); // write grid to current
         complete.write(ofs);
